@@ -67,9 +67,22 @@ def field_origin(b, o, depth=0):
     if o is None or o["k"] == "const" or depth > 8:
         return None
     pl = o["p"]
-    fl_ = [e for e in pl["pr"] if isinstance(e, dict) and e.get("n") and e.get("a")]
+    fl_ = [e for e in pl["pr"] if isinstance(e, dict) and e.get("n") and e.get("a") and not (e["a"] or "").startswith(("core::option::Option", "core::result::Result"))]
     if fl_:
         return (fl_[-1]["a"].rsplit("::", 1)[-1].split("<")[0], fl_[-1]["n"])
+    # a field of a local tuple / the payload of a locally built Some(..) / Ok(..): the operand that was put there
+    prj = [e for e in pl["pr"] if isinstance(e, dict) and "f" in e]
+    if prj:
+        d0 = single_def(b, pl["l"])
+        if d0 is not None and d0[1] != "t":
+            r0 = d0[2]
+            if r0["k"] == "agg" and r0.get("ak") in ("tuple", "adt") and prj[-1]["f"] < len(r0.get("ops") or []):
+                return field_origin(b, r0["ops"][prj[-1]["f"]], depth + 1)
+            if r0["k"] in ("use", "ref"):
+                inner = r0["o"]["p"] if r0["k"] == "use" and r0["o"]["k"] != "const" else (r0["p"] if r0["k"] == "ref" else None)
+                if inner is not None:
+                    return field_origin(b, {"k": "copy", "p": {"l": inner["l"], "pr": list(inner["pr"]) + [e for e in pl["pr"] if e != "*"], "ty": pl.get("ty", "")}}, depth + 1)
+        return None
     d = single_def(b, pl["l"])
     if d is None:
         return None
@@ -1535,6 +1548,33 @@ class Srv:
                         if any(n.endswith("PartialEq::ne") or n.endswith("::ne") for n in names):
                             op = "Ne"
                         elif any(n.endswith("PartialEq::eq") or n.endswith("::eq") for n in names):
+                            op = "Eq"
+                        else:
+                            continue
+                        what = compat_kind(b, pt["args"][0], pt["args"][1])
+            if what is None:
+                # the comparison was made earlier and its result moved here (a helper / closure that was spliced in,
+                # a flag): resolve the switch operand through plain moves
+                from an import cond_switches
+                cs_ = getattr(self, "_cond_sw", {}).get(id(b))
+                if cs_ is None:
+                    if not hasattr(self, "_cond_sw"):
+                        self._cond_sw = {}
+                    cs_ = self._cond_sw[id(b)] = cond_switches(b)
+                for (dbi, si), sws in cs_[0].items():
+                    if bi in sws:
+                        r_ = b.blocks[dbi]["s"][si]["r"]
+                        if r_["op"] in ("Ne", "Eq"):
+                            ck_ = compat_kind(b, r_["a"], r_["b"])
+                            if ck_:
+                                what, op = ck_, r_["op"]
+                for cbi, sws in cs_[1].items():
+                    if bi in sws and what is None:
+                        pt = b.blocks[cbi]["t"]
+                        names = callee_names(pt)
+                        if len(pt["args"]) == 2 and any(n.endswith("::ne") for n in names):
+                            op = "Ne"
+                        elif len(pt["args"]) == 2 and any(n.endswith("::eq") for n in names):
                             op = "Eq"
                         else:
                             continue
